@@ -289,6 +289,13 @@ class World:
         and finish it (or another one)."""
         for idx, wk in self.workers.items():
             if wk['chan'] is ch and wk['alive']:
+                if self.cfg.get('track_count'):
+                    # the worker decides "idle" (graceful Stop answered `true` at once) by Counter::total() == 0: a connection it can
+                    # already see must therefore already be counted
+                    tot = self.ex.run(self.c.TOTAL, [self.R(wk['counter'])]); out = self.n_inprogress(idx)
+                    self.acc.violated(self.ex, 'C06/a_dispatched_connection_is_counted_before_its_worker_can_see_it', z3.ULT(tot, z3.BitVecVal(out, 64)), hist=self.hist + ['<between conn_tx.send and inc_counter>'],
+                                      what='worker %d holds %d connections (queued or in service) while its counter says %s: a graceful Stop handled now is answered "idle"' % (idx, out, z3.simplify(tot)))
+                    self.acc.wit['c06_count_checked_at_send'] += 1
                 if self.cfg.get('track_c04'):
                     n = {i: self.n_inprogress(i) - (1 if i == idx else 0) for i in self.workers}
                     bits = {i: self.bit(i) for i in self.workers}
